@@ -43,6 +43,7 @@ type distEvent struct {
 	Err          bool     `json:"err"`
 	Asked        []int    `json:"asked"`
 	Hang         bool     `json:"hang"`
+	WName        string   `json:"wname,omitempty"`
 }
 
 type distWitness struct {
@@ -138,6 +139,11 @@ func execDist(s distScen, tag string, seed int64) ([]any, error) {
 	}
 	w := world.New(world.Params{Logs: names, MaxSize: 3, NBranch: 1, MaxLines: 6, NWitKeys: 2, Embed: "id", Seed: seed, RunTag: tag})
 	w = w.ForRun(tag, hashSeed(tag, seed))
+	// the witness' key name goes into the target path as ONE escaped segment: names that need escaping are part of the menu
+	// (a note key name may contain anything but white space and '+')
+	wnames := []string{"witness.verif.example", "witness.verif.example/w1", "wit%2Fness%41", "witness?x=1#frag", "a/../witness", "w\u00eftness.example", "witness.verif.example", "./w"}
+	wname := wnames[int(hashSeed(tag+"/wname", seed)%int64(len(wnames)))]
+	w.WitKey = ref.NewKey(wname, "witness")
 	_, witV, err := witnessSigners(w)
 	if err != nil {
 		return nil, err
@@ -191,7 +197,7 @@ func execDist(s distScen, tag string, seed int64) ([]any, error) {
 		}
 	}
 	var mu sync.Mutex
-	events := []any{distEvent{E: "dist.start", Run: tag, Wit: s.Wit, Dist: s.Dist, Asked: []int{}}}
+	events := []any{distEvent{E: "dist.start", Run: tag, Wit: s.Wit, Dist: s.Dist, Asked: []int{}, WName: wname}}
 	k := 0
 	srv := httptest.NewServer(http.HandlerFunc(func(rw http.ResponseWriter, r *http.Request) {
 		body, _ := io.ReadAll(r.Body)
